@@ -85,6 +85,9 @@ type Lexer struct {
 	pos        int
 	line       int
 	tokenStart int
+	// where the last token that is not a line end started: the end of input
+	// is reported there, not on the empty line after a trailing line end
+	lastStart int
 }
 
 func NewLexer(src string) Lexer {
@@ -221,7 +224,12 @@ func (l *Lexer) string(quoteChar byte) (Token, error) {
 		l.advance()
 	}
 	if l.atEnd() {
-		return l.errorToken(), l.error(l.tokenStart+1, "unexpected EOF while reading string")
+		// the first byte of the string, or the quote when nothing follows it
+		pos := l.tokenStart + 1
+		if pos >= len(l.src) || l.src[pos] == '\n' {
+			pos = l.tokenStart
+		}
+		return l.errorToken(), l.error(pos, "unexpected EOF while reading string")
 	}
 	l.advance()
 	l.tokenStart++ // skip over the opening quote
@@ -247,13 +255,18 @@ func (l *Lexer) GetString(token *Token) string {
 
 func (l *Lexer) GetLineAndCol(pos int) (string, int, int) {
 	line := 1
-	col := 1
+	col := 0
 	lineStart := 0
 	inLine := false
 	// positions are byte offsets: scan bytes, so that an offset inside a
 	// multi-byte character is found too
 	for i := 0; i < len(l.src); i++ {
 		r := l.src[i]
+		if i == pos {
+			// (a position on a line end belongs to the line it ends)
+			inLine = true
+			col = i - lineStart
+		}
 		if r == '\n' {
 			if inLine {
 				return l.src[lineStart:i], line, col
@@ -261,10 +274,10 @@ func (l *Lexer) GetLineAndCol(pos int) (string, int, int) {
 			line++
 			lineStart = i + 1
 		}
-		if i == pos {
-			inLine = true
-			col = i - lineStart
-		}
+	}
+	if !inLine {
+		// a position at the end of the source: just past the last line
+		col = len(l.src) - lineStart
 	}
 	return l.src[lineStart:], line, col
 }
@@ -282,7 +295,7 @@ func (l *Lexer) error(pos int, msg string) SyntaxError {
 func (l *Lexer) Next() (Token, error) {
 	l.skipWhitespace()
 	if l.atEnd() {
-		return l.simpleToken(EOF), nil
+		return Token{EOF, l.lastStart, 0}, nil
 	}
 
 	c := l.peek()
@@ -293,6 +306,7 @@ func (l *Lexer) Next() (Token, error) {
 		l.pos++
 		return l.simpleToken(Newline), nil
 	}
+	l.lastStart = l.pos
 
 	if c == '$' {
 		l.pos++
